@@ -128,7 +128,8 @@ class InstrumentMachine(Machine):
             u = rng.random()
             if u < 0.40:
                 a = rng.choice(focus)
-                ops.append({"op": "set", "attr": a, "value": self._value(rng, kind, a, cfg)})
+                ops.append({"op": "set", "attr": a, "value": self._value(rng, kind, a, cfg),
+                            "as": rng.choice(["plain", "plain", "plain", "numpy", "tuple"])})
             elif u < 0.48:
                 a = rng.choice(focus)
                 v = self._invalid(rng, kind, a)
@@ -206,6 +207,23 @@ class InstrumentMachine(Machine):
         c.handed = {}
         env.stats.add("kinds", c.kind)
         return c
+
+    def _retype(self, attr, value, how):
+        """The same value in another legal representation (numpy scalars / arrays, tuples)."""
+        if how == "numpy":
+            if isinstance(value, bool):
+                return value
+            if isinstance(value, int):
+                return np.int64(value)
+            if isinstance(value, float):
+                return np.float64(value)
+            if attr == "wavelength_to_pixel":
+                return [np.array(v, dtype=np.float64) for v in value]
+            if attr == "accommodated_spectra":
+                return [(np.float64(p[0]), np.int64(p[1])) for p in value]
+        if how == "tuple" and isinstance(value, list) and attr in ("wavelength_to_pixel", "accommodated_spectra"):
+            return tuple(tuple(v) for v in value)
+        return value
 
     def _apply(self, c, obj, attr, value, subject=False):
         if attr == "filters" and isinstance(value, list):
@@ -345,7 +363,13 @@ class InstrumentMachine(Machine):
             if a not in c.spec:
                 return "noop"
             try:
-                self._apply(c, c.obj, a, op["value"], subject=True)
+                how = op.get("as", "plain")
+                if how != "plain" and a != "filters":
+                    setattr(c.obj, a, self._retype(a, op["value"], how))
+                    c.handed.pop(a, None)
+                    env.probe("value_given_as_" + how)
+                else:
+                    self._apply(c, c.obj, a, op["value"], subject=True)
                 c.spec[a] = op["value"]
             except Exception as e:
                 out = "raised:" + type(e).__name__
